@@ -27,6 +27,7 @@ META = {
                        "model, float width selection, bignum folding); totality of re-encoding for decoded values is C01 I-enc + C12",
     "trusted_base": ["ciborium parse/serialise are inverse on the Value data model"],
 }
+META["decides"] += ' (As built: the from_cbor_bstr <-> cbor_bstr pairing re-checks that cbor_bstr returns the retained bytes untouched; encoder arrays and list-valued map fields are read as sequence values, so loops, extend, collect and iterator chains are equivalent.)'
 
 ARRAY_TYPES = ["sign::CoseSignature", "sign::CoseSign", "sign::CoseSign1", "encrypt::CoseRecipient", "encrypt::CoseEncrypt",
                "encrypt::CoseEncrypt0", "mac::CoseMac", "mac::CoseMac0", "context::PartyInfo", "context::SuppPubInfo"]
@@ -49,6 +50,11 @@ def check(ctx):
         n += 1
         _enum_pair(ctx, ty)
     n += _misc_pairs(ctx)
+    # the pairing from_cbor_bstr <-> cbor_bstr used by every array table is an inverse pair only because cbor_bstr hands
+    # back the retained bytes of a decoded header untouched (shared with C02 R-3 / C11 R-3)
+    from rules.c11 import check_cbor_bstr, check_is_empty
+    check_cbor_bstr(ctx, "R-1")
+    check_is_empty(ctx, "R-1")
     ctx.floor("R-1", "AsCborValue pairs cross-checked", n, 21)
     impls = [i for i in prog.impls if i.get("trait") == "common::AsCborValue"]
     ctx.ob("R-1", "all-impls-covered", len(impls) == n,
